@@ -80,7 +80,7 @@ func vpT_C15_deep() {
 
 // explicit collection properties win over the built IRI
 func vpH_C15_of_object() {
-	id := IRI(vpOwner(1, false, false, 0))
+	id := IRI(vpOwner(1, false, vpBool(), 0))
 	explicit := IRI("https://x.ex/" + string([]byte{vpAlnum()}))
 	which := vpChoice(3)
 	c := []CollectionPath{Likes, Shares, Replies}[which]
@@ -123,7 +123,7 @@ func vpH_C15_of_object() {
 }
 
 func vpH_C15_of_actor() {
-	id := IRI(vpOwner(1, false, false, 0))
+	id := IRI(vpOwner(1, false, vpBool(), 0))
 	explicit := IRI("https://x.ex/" + string([]byte{vpAlnum()}))
 	which := vpChoice(5)
 	names := []CollectionPath{Inbox, Outbox, Liked, Following, Followers}
